@@ -310,6 +310,10 @@ pub fn drivers_for(property: &str, thorough: bool) -> Vec<Driver> {
             }
         }
         push(format!("{}+{}:two first calls", f.fn_name, g.fn_name), vec![vec![first(f, 1)], vec![first(g, 1)]]);
+        // two caches that share their tag, event and dependency register at the same time: both must end up in
+        // the registry's tables (judged after quiescence by a request for each shared name)
+        let sib = pick(fl, Pol::Fifo, None);
+        push(format!("{}+{}:two first calls, shared metadata", f.fn_name, sib.fn_name), vec![vec![first(f, 1)], vec![first(sib, 1)]]);
         // a warm sibling that shares tag / event / dependency with the function making its first call:
         // the request then visits two caches, in both orders (two registry hash seeds)
         let h = pick(fl, Pol::Fifo, None);
